@@ -165,3 +165,12 @@ claim(
     "abstract interpretation under predicate assumptions to rational normal forms; structural monotonicity argument; recorded-call finiteness check; syntax-tree double-where rule; boolean truth table of the interface mask",
     "DESIGN.md §5 C20",
 )
+
+claim(
+    "C22",
+    "other",
+    "Decides GaussianSmoothing2D._apply_smoothing by abstract interpretation on designs of free symbolic entries (singleton axis in each position, shapes larger and smaller than the kernel half-width) with default and explicit symbolic padding arrays: every output entry is a linear form in design and padding entries with input-independent coefficients that are non-negative combinations of kernel weights and add up to the full kernel sum, which the real kernel function is shown to normalise to 1 (kernel = exp(-r^2/(2 sigma^2))/sum over arange(-h,h+1)^2, even in both coordinates, requested with size 6*std+1) — so constants are preserved, the convolution's zero fill never contributes and outputs stay within the range of design and padding values; and the transform commutes with mirroring along either in-plane axis when the paddings are mirrored accordingly (entry-wise identity between two interpretations). Holds for all real inputs of the interpreted shapes; float rounding is not decided.",
+    TB + "; models of jnp.tile/full/meshgrid/arange and scipy.signal.convolve(mode='same'); kernel weights positive",
+    "abstract interpretation on arrays of free symbols; linear-form extraction (symbolic derivative) with weight-sum and sign conditions; sibling identity under mirroring",
+    "DESIGN.md §5 C22",
+)
